@@ -105,7 +105,9 @@ type Res struct {
 	Hung  bool
 	Data  []byte
 	Ents  []Ent
-	Info  *Info
+	// Partial: the entries a FAILED listing handed back together with its error (a listing that broke off)
+	Partial []Ent
+	Info    *Info
 	// WriteErr/CloseErr of an openfile op are folded into Err (first failure wins); Stage says where.
 	Stage string
 }
@@ -259,6 +261,9 @@ func applyFS(fs hackpadfs.FS, op Op) (res Res) {
 	case "readdir":
 		des, err := hackpadfs.ReadDir(fs, op.P)
 		res.Err = err
+		if err != nil && len(des) > 0 {
+			res.Partial = toEnts(des)
+		}
 		if err == nil {
 			res.Ents = toEnts(des)
 			if res.Ents == nil {
